@@ -607,12 +607,24 @@ def execute(case, keep_text=False, after_fit=None):
                 # profiles at the median
                 S.ref_set(m2, o2, fit_by_name, order, med_vec)
                 m2.model(cutoff_grid=False)
-                from taurex.util.output import generate_profile_dict
                 if is_toy:
                     pref = {}
                 else:
-                    pref = generate_profile_dict(m2)
-                    pref['mu_profile'] = m2.chemistry.muProfile
+                    # (written out here, not taken from
+                    # taurex.util.output.generate_profile_dict: a key filed
+                    # under the wrong name there would agree with itself)
+                    pref = {
+                        'temp_profile': m2.temperatureProfile,
+                        'active_mix_profile':
+                            m2.chemistry.activeGasMixProfile,
+                        'inactive_mix_profile':
+                            m2.chemistry.inactiveGasMixProfile,
+                        'density_profile': m2.densityProfile,
+                        'scaleheight_profile': m2.scaleheight_profile,
+                        'altitude_profile': m2.altitudeProfile,
+                        'gravity_profile': m2.gravity_profile,
+                        'pressure_profile': m2.pressureProfile,
+                        'mu_profile': m2.chemistry.muProfile}
                 pr = sd['Profiles']
                 for k in sorted(pref):
                     if k not in pr:
